@@ -86,7 +86,12 @@ static void proj(const V &v, std::string &o) {
 }
 // document as JSON record for the trace specification
 static void jdoc(const V &v, std::string &o) {
-    switch (v.Type()) {
+    ValueType t = v.Type();
+    if (t == ValueType::ValuePtr)   // a pointer-to-value reads as what it points to (every accessor below forwards)
+        t = v.IsObject() ? ValueType::Object : v.IsArray() ? ValueType::Array : v.IsString() ? ValueType::String : v.IsUInt64() ? ValueType::UIntLong
+            : v.IsInt64() ? ValueType::IntLong : v.IsDouble() ? ValueType::Double : v.IsTrue() ? ValueType::True : v.IsFalse() ? ValueType::False
+            : v.IsNull() ? ValueType::Null : ValueType::Undefined;
+    switch (t) {
         case ValueType::Undefined: o += "{\"t\":\"U\"}"; break;
         case ValueType::Null: o += "{\"t\":\"Z\"}"; break;
         case ValueType::True: o += "{\"t\":\"T\"}"; break;
@@ -545,6 +550,47 @@ int main(int argc, char **argv) {
         vf::g_trace = nullptr;
         vf::Ledger &l = vf::ledger();
         printf("LEDGER allocs=%ld frees=%ld live=%zu badfree=%ld\n", l.allocs, l.frees, l.live.size(), l.bad_free);
+        vf::end_cases();
+        return 0;
+    }
+    if (mode == "ptr" && argc >= 5) {
+        // C12, pointer-to-value: every read through a pointer (directly, as an array item, as an object member) is the read of the target.  event: {"op":"ptr","t":target doc,"views":[doc seen through each pointer],"gi","gd","gb","nt","size","eq"}
+        vf::Rng rng(strtoull(argv[2], nullptr, 10));
+        long    cnt = atol(argv[3]);
+        FILE   *out = fopen(argv[4], "w");
+        if (!out) return 2;
+        vf::g_trace = out;
+        for (long i = 0; i < cnt; ++i) {
+            vf::begin_case(i);
+            snprintf(vf::g_desc, sizeof(vf::g_desc), "ptr case %ld", i);
+            V target = make_lit(rnd_lit(rng), 1);
+            int extra = (int)rng.below(4);
+            for (int k = 0; k < extra; ++k) {       // grow containers a little
+                V x = make_lit(rnd_lit(rng), 1);
+                if (target.IsArray()) target += Memory::Move(x);
+                else if (target.IsObject()) { std::string key = key_text(1 + (long)rng.below(4)); target[key.c_str()] = Memory::Move(x); }
+            }
+            V p1, arr, obj;                              // (a pointer to a pointer is not specified anywhere: not exercised)
+            p1.SetPointerToValue(&target);
+            arr.AddPointerToValue(&target);
+            std::string key = key_text(1);
+            obj[key.c_str()].SetPointerToValue(&target);
+            std::string jt, v1, v3, v4;
+            jdoc(target, jt);
+            jdoc(p1, v1);
+            { const V *e = arr.GetValue(SizeT{0}); if (e) jdoc(*e, v3); else v3 = "{\"t\":\"U\"}"; }
+            { const V *e = obj.GetValue(key.c_str()); if (e) jdoc(*e, v4); else v4 = "{\"t\":\"U\"}"; }
+            long gi = (long)p1.GetInt64(), gd = (long)(p1.GetDouble() * 2.0), gb, nt;
+            bool b;
+            gb = p1.SetBool(b) ? (b ? 1 : 0) : -1;
+            QNumber64 q;
+            nt = (long)p1.SetNumber(q);
+            int eq = (p1 == target) && (target == p1) && !(p1 < target) && !(p1 > target);
+            fprintf(out, "{\"op\":\"ptr\",\"t\":%s,\"views\":[%s,%s,%s],\"gi\":%ld,\"gd\":%ld,\"gb\":%ld,\"nt\":%ld,\"size\":%ld,\"tsize\":%ld,\"eq\":%d}\n", jt.c_str(), v1.c_str(),
+                    v3.c_str(), v4.c_str(), gi, gd, gb, nt, (long)p1.Size(), (long)target.Size(), eq);
+        }
+        fclose(out);
+        vf::g_trace = nullptr;
         vf::end_cases();
         return 0;
     }
